@@ -71,13 +71,11 @@ def locate(genmap, off):
 
 
 def label_before(text, off, lo=0):
-    """Nearest /*@L:..*/ marker that starts at or before `off` (not crossing `lo`)."""
+    """The /*@L:..*/ marker that immediately precedes offset `off` (only whitespace in between)."""
     best = None
-    for m in LABEL_RE.finditer(text, lo, min(len(text), off + 200)):
-        if m.start() <= off:
+    for m in LABEL_RE.finditer(text, max(lo, off - 400), min(len(text), off + 1)):
+        if m.end() <= off and text[m.end():off].strip() == "":
             best = m
-        else:
-            break
     return best
 
 
